@@ -5,7 +5,7 @@
     every reachable state of the single-threaded cache the key/value objects referenced by
     the cache are exactly those of the map entries: as many live objects as resident entries,
     after every operation; nothing else holds a key or a value. *)
-From MM Require Import Unsync.UInvDefs Unsync.UInv.
+From MM Require Import Unsync.UInvDefs Unsync.UInv Sync.SInvDefs Sync.SInvWrites Sync.SInvTop.
 
 Theorem C11_unsync_owners : forall c ops, cfg_ok c -> N.of_nat (length ops) < 2 ^ 24 ->
   exists r outs, urun_ops c urun_init ops = Ok (r, outs) /\ WF' c (ur_state r).
@@ -20,6 +20,25 @@ Theorem C11_unsync_wo_node_owner : forall c s n nd, WF c s -> (n, nd) ∈ u_wo s
   uc_ttl c <> None /\ exists e, u_map s !! wn_key nd = Some e /\ ue_wo e = Some n.
 Proof. intros c s n nd H. exact (wf_wo_map c s H n nd). Qed.
 
+(** concurrent cache: queued read/write ops are the only other owners of ValueEntries; once a
+    maintenance run has emptied the queues, every deque node belongs to the map entry of its
+    key and every map entry is admitted: the objects the cache references are exactly the
+    resident entries' (no ghost node pins a key) *)
+Theorem C11_sync_quiescent_owners : forall c s, SInv c s -> quiescent s ->
+  s_ec s = N.of_nat (size (s_map s)) /\ s_ec s = qlen (s_prob s) /\ s_ws s = s_map_weight c s /\
+  (forall k ve, s_map s !! k = Some ve -> si_admitted (get_info s (ve_info s ve)) = true) /\
+  (forall n nd, (n, nd) ∈ s_prob s -> map_has_info s (sa_key nd) (sa_info nd) = true).
+Proof. exact quiescent_counters. Qed.
+Theorem C11_sync_maintenance_quiesces : forall c s now, scfg_ok c -> SInv c s -> s_small s ->
+  exists s', s_sync c s now = Ok s' /\ SInv c s' /\ quiescent s'.
+Proof. exact sync_quiescent. Qed.
+Theorem C11_sync_reachable : forall c ops, scfg_ok c -> N.of_nat (length ops) < 2 ^ 18 ->
+  exists r outs, srun_ops c srun_init ops = Ok (r, outs) /\ SInv c (sr_state r).
+Proof. exact srun_safe. Qed.
+
+Print Assumptions C11_sync_quiescent_owners.
+Print Assumptions C11_sync_maintenance_quiesces.
+Print Assumptions C11_sync_reachable.
 Print Assumptions C11_unsync_owners.
 Print Assumptions C11_unsync_node_owner.
 Print Assumptions C11_unsync_wo_node_owner.
